@@ -35,6 +35,10 @@ Fact regex_shapes_as_modelled : F.regex_shapes =
     ("EOS_ITEMIZE_HEADER", "([{}])([{}])\\z", ["ALPHABET_OR_NUMBER"; "DOT"]) ].
 Proof. vm_compute. reflexivity. Qed.
 
+(* the only pattern that runs on the backtracking VM has no step limit (otherwise get_eos fails on long windows) *)
+Fact fancy_patterns_unlimited : F.fancy_backtrack_limits = [ ("SENTENCE_BREAKER", "usize::MAX") ].
+Proof. vm_compute. reflexivity. Qed.
+
 Fact get_eos_head_as_modelled : F.get_eos_head =
   "if input.is_empty() { return Ok(0); } let s: String = input.chars().take(self.limit).collect(); let input_exceeds_limit = s.len() < input.len(); lazy_static!{..}".
 Proof. vm_compute. reflexivity. Qed.
